@@ -124,3 +124,38 @@ func HarnessC19Parser(mode int) {
 	}
 	vreach("C19.parser.end")
 }
+
+// HarnessC19SkipRewind: the skipper stays in force after Rewind
+func HarnessC19SkipRewind(auto int) {
+	s := c08Stream()
+	skipPID := []uint16{0, 0x1000, 0x100}[vrange(0, 2)]
+	var keep []byte
+	for k, p := range s.pkts {
+		if s.units[s.pktUnit[k]].pid != skipPID {
+			keep = append(keep, p...)
+		}
+	}
+	skipper := func(p *Packet) bool { return p.Header.PID == skipPID }
+	var dmx *Demuxer
+	if auto == 1 {
+		dmx = NewDemuxer(vCtx{}, newVSeekReader(s.bytes()), DemuxerOptPacketSkipper(skipper))
+	} else {
+		dmx = NewDemuxer(vCtx{}, newVSeekReader(s.bytes()), DemuxerOptPacketSize(188), DemuxerOptPacketSkipper(skipper))
+	}
+	for i := vrange(0, 3); i > 0; i-- {
+		dmx.NextPacket()
+	}
+	_, err := dmx.Rewind()
+	vassert("C19.rewind.err", err == nil)
+	ref := NewDemuxer(vCtx{}, newVReader(keep), DemuxerOptPacketSize(188))
+	for k := 0; k < 8; k++ {
+		p, e1 := dmx.NextPacket()
+		q, e2 := ref.NextPacket()
+		vassert("C19.rewind.err.same", (e1 == nil) == (e2 == nil))
+		if e1 != nil || e2 != nil {
+			break
+		}
+		vassert("C19.rewind.same", p.Header == q.Header && vBytesEq(p.Payload, q.Payload))
+	}
+	vreach("C19.rewind.end")
+}
